@@ -19,13 +19,17 @@ Pool == { L("opt", "Listen", FALSE, "Listen", <<A("53", "int")>>),
           L("opt", "Many", FALSE, "Many", <<A("no", "bool0"), A("1", "int1"), A("TRUE", "bool1"), A("off", "bool0"), A("Yes", "bool1"), A("maybe", "str"), A("On", "bool1")>>),
           L("opt", "Many", FALSE, "Many", <<A("no", "bool0"), A("1", "int1"), A("TRUE", "bool1"), A("off", "bool0"), A("7", "int")>>),
           L("opt", "TTL", FALSE, "TTL", <<A("1", "int1")>>),
+          L("opt", "Quiet", FALSE, "Quiet", <<A("q", "str")>>),
+          L("opt", "Fail", FALSE, "Fail", <<A("bad", "str")>>),
+          L("opt", "Fail", FALSE, "Fail", <<A("good", "str")>>),
           L("opt", "Bogus", FALSE, "Bogus", <<A("v", "str")>>),
           L("open", "Domain", FALSE, "Domain", <<A("mail", "str")>>),
           L("open", "Host", FALSE, "Host", <<A("h", "str")>>),
           L("close", "Domain", FALSE, "Domain", <<>>),
           L("close", "Host", FALSE, "Host", <<>>) }
-Init == lines = <<>> /\ flags \in {<<FALSE, FALSE>>, <<TRUE, FALSE>>, <<FALSE, TRUE>>}
+\* flags: case-insensitive, ignore-unknown, default handler installed
+Init == lines = <<>> /\ flags \in {<<FALSE, FALSE, FALSE>>, <<TRUE, FALSE, FALSE>>, <<FALSE, TRUE, FALSE>>, <<FALSE, FALSE, TRUE>>, <<FALSE, TRUE, TRUE>>}
 Next == Len(lines) < MaxLines /\ \E x \in Pool : lines' = Append(lines, x) /\ UNCHANGED flags
 \* unregistered sections under ignore-unknown are excluded (undocumented behaviour)
-Emit == PrintT("DOC " \o ToJson([lines |-> lines, ci |-> flags[1], ignore |-> flags[2]]))
+Emit == PrintT("DOC " \o ToJson([lines |-> lines, ci |-> flags[1], ignore |-> flags[2], defh |-> flags[3]]))
 ===========================================================================
